@@ -50,11 +50,11 @@ REGISTRY = {
     "C09": both(std(scen_state.gen_C09), std(scen_state.gen_C09_lifetimes, ("shipped",))),
     "C10": std(scen_state.gen_C10),
     "C16": std(scen_state.gen_C16, ("shipped", "toyint")),
-    "C05": std(scen_group.gen_C05),
+    "C05": std(scen_group.gen_C05_all),
     "C12": std(scen_group.gen_C12, ("edgen", "toyed")),
-    "C13": std(scen_group.gen_C13, ("shipped", "toyint", "toyed")),
+    "C13": std(scen_group.gen_C13_all, ("shipped", "toyint", "toyed")),
     "C14": std(scen_group.gen_C14, ("shipped", "toyint", "toyed")),
-    "C15": std(scen_group.gen_C15, ("shipped", "toyint", "toyed")),
+    "C15": std(scen_group.gen_C15_all, ("shipped", "toyint", "toyed")),
     "C18": std(scen_group.gen_C18, ("shipped",)),
     "C01": plus_traces(std(scen_proto.gen_C01)),
     "C02": std(scen_proto.gen_C02),
